@@ -170,6 +170,24 @@ def replay(contract: Any, clause: Any, obligation: Any, max_models: int = 16) ->
     out: Dict[str, Any] = {"status": "no-input", "detail": "", "inputs": None}
     if obligation.kind == "frame" and obligation.label.startswith("inplace:"):
         return replay_frame(contract, obligation)
+    if contract.reify is None and contract.samples is not None and clause is not None:
+        # no model reifier: search the contract's native samples for an input on which the clause fails
+        fi = lookup(contract.target)
+        tried = 0
+        for args in contract.samples():
+            tried += 1
+            ns = dict(args)
+            try:
+                ns["result"] = fi.pyfunc(*[args[a] for a in fi.argnames])
+            except Exception:
+                continue
+            ok, why = native_clause(clause, ns)
+            if ok is False:
+                out.update(status="violation", detail=f"native clause `{clause.label}` is false on a sample; real result = {ns['result']!r}",
+                           inputs={k: repr(v) for k, v in args.items() if k != "self"}, tried=tried)
+                return out
+        out.update(status="no-input", detail=f"no sample ({tried} tried) falsifies the clause natively")
+        return out
     if contract.reify is None or obligation.result is None or obligation.result.model is None:
         out["detail"] = "no reifier for this contract" if contract.reify is None else "no model"
         return out
